@@ -94,6 +94,9 @@ func c07Build(c gen.V4Case, pr c07Prog) *dhcpv4.DHCPv4 {
 			mid()
 		}
 	case 1:
+		if pr.MidEncode && len(pr.Order) > 0 {
+			p.Options = nil // a packet whose option map was never made: UpdateOption makes it
+		}
 		for n, i := range pr.Order {
 			if junkAt[n] {
 				if junkCode != 0 {
@@ -145,6 +148,9 @@ func c07Build(c gen.V4Case, pr c07Prog) *dhcpv4.DHCPv4 {
 			p.UpdateOption(opt(i))
 			mid()
 		}
+	}
+	if p.Options == nil {
+		p.Options = dhcpv4.Options{}
 	}
 	if pr.PadEnd&1 != 0 {
 		p.Options[0] = []byte{1, 2, 3}
